@@ -295,7 +295,7 @@ BODIES = [
 ]
 
 
-def ob_shapes(ctx, H, bodies):
+def ob_shapes(ctx, H, bodies, damages=None):
     """sequences of 1..H well-formed hunks from a catalogue of bodies with different leading/trailing context,
     symbolic start lines and payloads, optional garbage between hunks: real function vs REF_HUNK"""
     UD, MalformedHunkError, RH = _mods()
@@ -303,7 +303,7 @@ def ob_shapes(ctx, H, bodies):
     ig = bool(ctx.choose(0, 1, 'ignore_garbage'))
     lines = []
     kinds = []
-    damage = ctx.pick('damage', ['none', 'none', 'drop-last-line', 'header-inside', 'flip-kind', 'opposed-counts'])
+    damage = ctx.pick('damage', list(damages or ['none', 'none', 'drop-last-line', 'header-inside', 'flip-kind', 'opposed-counts']))
     for h in range(nh):
         body = ctx.pick('body%d' % h, bodies)
         o = sum(1 for m in body if m in ' -')
@@ -407,7 +407,10 @@ def obligations(tier):
                       must_reach=['unified_diffs:get_unified_diff_hunks'], path_timeout=40,
                       desc='as below with all %d bodies (marker positions included) in sequences of 1..2 hunks' % len(BODIES),
                       bounds={'hunks': [1, 2], 'bodies': len(BODIES)}))
-    obs.append(Ob('hunk-sequences[H<=%d]' % H, ob_shapes, dict(H=H, bodies=(BODIES[:5] + BODIES[8:11]) if quick else BODIES[:8]),
+    # (thorough, H=3: the damage menu of the committed end-to-end run; the length-preserving damages run in the H<=2
+    # obligation above with all bodies -- with them here the obligation would pass its one-hour limit)
+    obs.append(Ob('hunk-sequences[H<=%d]' % H, ob_shapes, dict(H=H, bodies=(BODIES[:5] + BODIES[8:11]) if quick else BODIES[:8],
+                                                               damages=None if quick else ['none', 'none', 'drop-last-line', 'header-inside']),
                   must_reach=['unified_diffs:get_unified_diff_hunks'], path_timeout=40,
                   desc='real get_unified_diff_hunks vs REF_HUNK on sequences of 1..%d well-formed hunks from a catalogue '
                        'of bodies with different context (symbolic start lines and payload bytes, optional garbage, '
